@@ -13,19 +13,20 @@ for d in sorted(glob.glob("/verif/seeded/*/")):
     prop = meta["property"]
     a = subprocess.run(f"git -C /repo apply {d}patch.diff", shell=True, capture_output=True, text=True)
     if a.returncode:
-        rows.append((name, prop, "patch no longer applies", "", ""))
+        rows.append((name, prop, meta.get("summary", "")[:140].replace("|", "/"), "patch no longer applies", "", ""))
         continue
     try:
         t0 = time.time()
         c = subprocess.run(f"cd /verif && ./check {prop} --tier quick", shell=True, capture_output=True, text=True)
         v = [l for l in c.stdout.splitlines() if l.startswith("VIOLATION")]
-        rows.append((name, prop, "DETECTED" if c.returncode == 1 and v else f"missed (rc={c.returncode})",
+        rows.append((name, prop, meta.get("summary", "")[:140].replace("|", "/").replace("\n", " "),
+                     "DETECTED" if c.returncode == 1 and v else f"missed (rc={c.returncode})",
                      f"{time.time()-t0:.0f}s", (v or [""])[0][:160].replace("|", "/")))
     finally:
         subprocess.run("git -C /repo checkout -- .", shell=True)
     print(rows[-1], flush=True)
 subprocess.run("rm -rf /verif/evidence && mv /tmp/evidence_backup /verif/evidence", shell=True)
 with open("/verif/seeded/RESULTS.md", "w") as f:
-    f.write("| seeded change | property | quick check | time | first violation line |\n|---|---|---|---|---|\n")
+    f.write("| seeded change | property | what was changed | quick check | time | first violation line |\n|---|---|---|---|---|---|\n")
     for r in rows:
         f.write("| " + " | ".join(r) + " |\n")
